@@ -1,8 +1,107 @@
-(* C19 -- property theorems only. *)
-From Coq Require Import ZArith NArith List Bool.
-From MV Require Import C19.Model C19.Proofs.
+(* C19 -- Database reads agree with the committed chain.  Property theorems only.
+
+   Implementation model: C19.Model (Center over TempLeveldb temps and LeveldbPermanent, transcribed).
+   Specification: the committed chain [abs c] (a list of blocks, newest first) and reads that are plain
+   scans of that list (spec_read).  A history is any list of Write / MergePerm / RemoveBlocks /
+   CleanRemoved steps whose written blocks carry a height >= 0 (op_ok); everything else -- heights that
+   do not follow, merges with fewer than two temps, removals of heights that are not temps -- is part
+   of the quantification: the model, like the code, refuses those steps. *)
+From Coq Require Import ZArith NArith List Bool Permutation.
+From MV Require Import C19.Model C19.Proofs C19.Refine C19.Conc Gen.C19.
 Import ListNotations.
 Open Scope Z_scope.
 
-Theorem C19_write_appends : forall c b, snd (step_write c b) = true -> abs (fst (step_write c b)) = b :: abs c.
-Proof. exact abs_write. Qed.
+(* 1. Refinement, every read kind (State, StateBytes, BlockMap, BlockMapBytes, LastBlockMap(+Bytes),
+      SuffrageProof(+Bytes) by suffrage height, SuffrageProofByBlockHeight, LastSuffrageProof(+Bytes),
+      LastNetworkPolicy, ExistsInStateOperation, ExistsKnownOperation), every argument (in and out of
+      range), after every history. *)
+Theorem C19_read_refines : forall ops, Forall op_ok ops ->
+  forall r, eval_read (run ops) r = spec_read (abs (run ops)) r.
+Proof. intros ops H r. apply read_refines. apply Inv_run. exact H. Qed.
+
+(* 2. The abstraction really is "keep all committed blocks":
+      - a write is accepted iff nothing is committed yet or its height follows the top block; then the
+        block is put on top, otherwise nothing changes;
+      - merging into the permanent store and cleaning removed temps do not change the chain;
+      - RemoveBlocks(h), when it reports true, drops exactly the blocks with height >= h. *)
+Theorem C19_chain_write : forall ops b, Forall op_ok ops ->
+  let c := run ops in
+  (snd (step c (Write b)) = true <-> (abs c = [] \/ exists b0 r, abs c = b0 :: r /\ b_h b = b_h b0 + 1)) /\
+  abs (fst (step c (Write b))) = if snd (step c (Write b)) then b :: abs c else abs c.
+Proof. intros ops b H. apply abs_write. apply Inv_run. exact H. Qed.
+
+Theorem C19_chain_merge_clean : forall ops n, Forall op_ok ops ->
+  abs (fst (step (run ops) MergePerm)) = abs (run ops) /\
+  abs (fst (step (run ops) (CleanRemoved n))) = abs (run ops).
+Proof.
+  intros ops n H. split; [apply Inv_merge|apply Inv_clean]; apply Inv_run; exact H.
+Qed.
+
+Theorem C19_chain_remove : forall ops h, Forall op_ok ops ->
+  let c := run ops in
+  abs (fst (step c (RemoveBlocks h))) =
+  if snd (step c (RemoveBlocks h)) then filter (fun x => b_h x <? h) (abs c) else abs c.
+Proof. intros ops h H. apply abs_remove. apply Inv_run. exact H. Qed.
+
+(* the committed chain always has consecutive heights (so "the block at height h" is unique) *)
+Theorem C19_chain_consecutive : forall ops, Forall op_ok ops -> consec (abs (run ops)).
+Proof. intros ops H. apply Inv_consec_abs. apply Inv_run. exact H. Qed.
+
+(* 3. Center.State visits the temps concurrently (dig): whatever order the scheduler picks, the
+      answer is the same. *)
+Theorem C19_state_any_order : forall ops ts k, Forall op_ok ops ->
+  Permutation ts (c_temps (run ops)) -> c_state_order (run ops) ts k = c_state (run ops) k.
+Proof. intros ops ts k H HP. apply c_state_any_order; [apply Inv_run; exact H|exact HP]. Qed.
+
+(* 4. Reads of a key never go back to an older state: after any further writes, merges and cleans
+      (RemoveBlocks is the one operation meant to take blocks away) a key that was found is still found,
+      at the same or a greater height. *)
+Theorem C19_state_monotone : forall ops more, Forall op_ok ops -> Forall op_ok more -> Forall no_remove more ->
+  forall k s, c_state (run ops) k = Some s ->
+  exists s', c_state (run (ops ++ more)) k = Some s' /\ st_h s <= st_h s'.
+Proof. exact state_monotone. Qed.
+
+(* 5. Reads concurrent with the ticker of Center.start (mergePermanent + cleanRemoved(keep)).
+      keep is the literal in Center.start, regenerated from the source on every run. *)
+Definition keep : nat := Z.to_nat (nth 0 center_start_ints 0).
+
+Theorem C19_keep_is_code_constant : center_start_ints = [3] /\ keep = 3%nat /\ merge_to_permanent_ints = [2; 1].
+Proof. repeat split; reflexivity. Qed.
+
+(* every temp of the snapshot a reader took at c0 is still there -- active, or removed but not yet
+   cleaned -- after any run of the ticker with at most [keep] merges *)
+Theorem C19_concurrent_snapshot_alive : forall ops env, Forall op_ok ops -> env_ok keep env ->
+  forall t, In t (c_temps (run ops)) ->
+  In t (c_temps (run_from (run ops) env)) \/ In t (c_removed (run_from (run ops) env)).
+Proof. intros ops env H. apply snapshot_alive. apply Inv_run. exact H. Qed.
+
+(* a State read that snapshots the temps at c0, visits them in any order and asks the permanent
+   database at any later point of such a run returns the latest committed state of the key *)
+Theorem C19_concurrent_state : forall ops env ts k, Forall op_ok ops -> env_ok keep env ->
+  Permutation ts (c_temps (run ops)) ->
+  c_state_order (run_from (run ops) env) ts k = spec_state (abs (run ops)) k.
+Proof. intros ops env ts k H. apply concurrent_state. apply Inv_run. exact H. Qed.
+
+(* ------------------------------------------------------------------ non-vacuity *)
+
+Definition ex_b0 : block := mkBlock 0 10 [(2%N, 20%N)] (Some (0, 30%N, 40%N)) (Some (31%N, 50%N)) [1%N] [2%N].
+Definition ex_b1 : block := mkBlock 1 11 [(2%N, 21%N); (3%N, 22%N)] None None [] [3%N].
+Definition ex_b2 : block := mkBlock 2 12 [(3%N, 23%N)] (Some (1, 32%N, 41%N)) None [4%N] [].
+Definition ex_ops : list op :=
+  [Write ex_b0; Write ex_b1; MergePerm; Write ex_b2; Write ex_b2; MergePerm; CleanRemoved 1; RemoveBlocks 2].
+
+Example C19_example_valid : Forall op_ok ex_ops.
+Proof. repeat constructor; simpl; discriminate. Qed.
+
+(* the second write of height 2 is refused, block 2 is removed again: blocks 1 and 0 remain, both merged
+   or merging; the reads see exactly them *)
+Example C19_example_chain : abs (run ex_ops) = [ex_b1; ex_b0].
+Proof. vm_compute. reflexivity. Qed.
+
+Example C19_example_reads :
+  map (eval_read (run ex_ops)) [RState 2; RState 3; RMap 1; RMap 2; RSuf 0; RSuf 1; RSufBH 1; RSufBH (-1); RPolicy; RKnown 3; RKnown 9]
+  = [21; 22; 11; -1; 40; -1; 40; -2; 50; 1; 0].
+Proof. vm_compute. reflexivity. Qed.
+
+Example C19_example_env : env_ok keep [MergePerm; CleanRemoved 3; MergePerm; MergePerm; CleanRemoved 5].
+Proof. split; [repeat constructor|]; vm_compute; repeat constructor. Qed.
